@@ -5,6 +5,7 @@ CONSTANTS
   Maxes <- Unused
   Methods <- Unused
   Shardings <- Unused
+  Codes <- Unused
   CfgSpace <- Unused
   MaxLen = 1000
   AioForwardsMethod = TRUE
